@@ -299,6 +299,39 @@ def resolveMacro (st : State) (name : String) : Except Err Val :=
   | [full] => .ok (.const full)
   | _ => .error .valueError
 
+mutual
+  /-- what the parser does to the `%name` leaves of a written value: a name matching one constant
+      (by dotted suffix) becomes that constant's complete name; several matches are an error -/
+  def resolveAbbrev (st : State) : Val → Except Err Val
+    | .const name => match st.constants.matching name with
+        | [full] => .ok (.const full)
+        | [] => .ok (.const name)
+        | _ => .error .valueError
+    | .list xs => match resolveAbbrevL st xs with
+        | .ok ys => .ok (.list ys) | .error e => .error e
+    | .tuple xs => match resolveAbbrevL st xs with
+        | .ok ys => .ok (.tuple ys) | .error e => .error e
+    | .dict kvs => match resolveAbbrevD st kvs with
+        | .ok ys => .ok (.dict ys) | .error e => .error e
+    | v => .ok v
+  def resolveAbbrevL (st : State) : List Val → Except Err (List Val)
+    | [] => .ok []
+    | x :: xs => match resolveAbbrev st x with
+        | .error e => .error e
+        | .ok y => match resolveAbbrevL st xs with
+          | .error e => .error e
+          | .ok ys => .ok (y :: ys)
+  def resolveAbbrevD (st : State) : List (Val × Val) → Except Err (List (Val × Val))
+    | [] => .ok []
+    | (k, v) :: rest => match resolveAbbrev st k with
+        | .error e => .error e
+        | .ok k' => match resolveAbbrev st v with
+          | .error e => .error e
+          | .ok v' => match resolveAbbrevD st rest with
+            | .error e => .error e
+            | .ok rest' => .ok ((k', v') :: rest')
+end
+
 def initConstants : SelMap Val := (SelMap.empty : SelMap Val).set ["gin", "REQUIRED"] .required
 
 def clear (st : State) (clearConstants : Bool) : State :=
